@@ -87,7 +87,20 @@ pub fn run(args: &[String]) {
     let cases = read_cases(&args[0]);
     let start: usize = args.get(1).map(|s| s.parse().unwrap()).unwrap_or(0);
     use std::io::Write as _;
+    // per-case watchdog: a case that runs for more than 20 s is a hang (exit code 3, the caller restarts after it);
+    // the time limit is per case so that a slow machine cannot turn a long batch into false hangs
+    let started = std::sync::Arc::new(std::sync::Mutex::new(std::time::Instant::now()));
+    {
+        let started = started.clone();
+        std::thread::spawn(move || loop {
+            std::thread::sleep(std::time::Duration::from_millis(500));
+            if started.lock().unwrap().elapsed() > std::time::Duration::from_secs(20) {
+                std::process::exit(3);
+            }
+        });
+    }
     for case in cases.iter().skip(start) {
+        *started.lock().unwrap() = std::time::Instant::now();
         run_case(case);
         std::io::stdout().flush().unwrap();
     }
